@@ -264,22 +264,33 @@ theorem matchedStep_P {cfg : Cfg} {startT : Option Tree} {sn : Option (Option Na
           · rename_i e' hn
             simp only [Prod.mk.injEq, Step.raise.injEq] at heq
             rw [← heq.1]
-            unfold endNameCheck at hn
+            have hlit : ∀ cfg', endNameCheck cfg' (Option.map (infoOf env.tbl) startT)
+                (infoOf env.tbl t) = some e' → e' = .other ∨ e' = .syntax := by
+              intro cfg' hn'
+              unfold endNameCheck at hn'
+              split at hn'
+              · split at hn'
+                · simp at hn'; exact Or.inl hn'.symm
+                · split at hn'
+                  · simp at hn'; exact Or.inl hn'.symm
+                  · split at hn'
+                    · simp at hn'; exact Or.inl hn'.symm
+                    · split at hn'
+                      · simp at hn'; exact Or.inr hn'.symm
+                      · split at hn'
+                        · simp at hn'; exact Or.inr hn'.symm
+                        · split at hn'
+                          · simp at hn'; exact Or.inr hn'.symm
+                          · simp at hn'
+              · simp at hn'
+            unfold endNameCheckQ at hn
             split at hn
-            · split at hn
-              · simp at hn; exact Or.inl hn.symm
-              · split at hn
-                · simp at hn; exact Or.inl hn.symm
-                · split at hn
-                  · simp at hn; exact Or.inl hn.symm
-                  · split at hn
-                    · simp at hn; exact Or.inr (Or.inl hn.symm)
-                    · split at hn
-                      · simp at hn; exact Or.inr (Or.inl hn.symm)
-                      · split at hn
-                        · simp at hn; exact Or.inr (Or.inl hn.symm)
-                        · simp at hn
-            · simp at hn
+            · rcases hlit _ hn with h | h
+              · exact Or.inl h
+              · exact Or.inr (Or.inl h)
+            · rcases hlit _ hn with h | h
+              · exact Or.inl h
+              · exact Or.inr (Or.inl h)
           · simp at heq
       · simp at heq
 
